@@ -51,7 +51,7 @@ def hostile_pool(canary):
         f"compile(\"open('{c}','w')\", 'x', 'exec')", f"__import__('pathlib').Path('{c}').touch()", f"(lambda: open('{c}', 'w'))()",
         f"[open('{c}', 'w') for _ in range(1)]", f"(x := open('{c}', 'w'))", f"().__class__.__mro__[1].__subclasses__()", f"getattr(__builtins__, 'open')('{c}', 'w')",
         f"__import__('subprocess').run(['touch', '{c}'])", f"__import__('socket').socket()", f"__import__('os').environ.__setitem__('X', '1')",
-        "9**9**9", "1<<10**9", "'a'*10**9", "int('9'*10**5)", "1e400", "float('nan')", "-1e400", "10**10**10", "2**(2**40)", "(1<<(1<<40))", "9**9**9**9",
+        "9**9**9", "1<<10**9", "'a'*10**9", "int('9'*10**5)", "1e400", "float('nan')", "-1e400", "10**10**10", "2**(2**40)", "(1<<(1<<40))", "9**9**9**9", "(2**63)**64", "-((2**63)**40)", "(10**19)**60", "(2**63)**17 * 1.0", "float((2**63)**64)", "int(1e300) * int(1e300)",
         "[0]*10**9", "max(9**9**9, 1)", "abs(-(9**9**9))", "len('a'*10**10)", "1 if 9**9**9 else 2", "f'{9**9**9}'", "str(9**99999)",
         "x.__class__", "globals()", "locals()", "vars()", "dir()", "input()", "breakpoint()", "exit()", "quit()", "help()", "__file__", "__name__",
         "[1, 0, 1e400]", "[255, -1e999]", "[1, float('nan')]", "[1, 2, 3, 4, 5, 6, 7, 1e400]", "[9**9**9]", "(1, 1e400)", "'HC-SR04' * 10**9",
@@ -83,6 +83,12 @@ TEMPLATES = [
     "__tmp_assign_0 = 1\na7 = 2\nb7 = 3\na7, b7 = b7, a7\nmon.write(__tmp_assign_0)", "__redu_len = 3\nmon.write(len(items))", "setup = 1\nloop = 2\nmon.write(setup + loop)", "String = 1\nmon.write(str(String))",
     "delay = 5\nsleep(delay)", "Serial = 3\nmon.write(Serial)", "__state_led = 9\nled.toggle()\nmon.write(__state_led)", "int = 3\nfloat = 2\nmon.write(int + float)", "x = 1\ndef x():\n    return 2\nmon.write(x())",
     "target('~/dev/arduino-uno')", 'target("~root/tty")', "target('$HOME/port')", 'target("%USERPROFILE%/p", upload=False)', "target('~')\nx = {H}", "target(port='~/x')",
+    # import lines beyond the documented package-level form: still only text to the transpiler (nothing imported, opened or looked up)
+    "from Reduino.Actuators.Led import Led\nled3 = Led(5)", "from Reduino.Sensors.Button import Button\nb3 = Button(2)", "import Reduino.Actuators.Led", "from Reduino.Actuators import *",
+    "from Reduino.Nope import Thing\nt3 = Thing({H})", "from Reduino.Displays.LCD import LCD", "from Reduino.Utils.sleep import sleep\nsleep({H})", "import Reduino\nx = {H}", "from Reduino import Actuators",
+    "from . import x", "from .. import y", "from Reduino.transpile import parser", "import os, sys\nx = {H}", "from os import system\nsystem({H})", "from Reduino.Actuators import Led as L\nq = L(3)",
+    "import Reduino.Actuators as A\nq = A.Led(3)", "from Reduino.Sensors.Ultrasonic import Ultrasonic\nu3 = Ultrasonic(7, 8)", "from Reduino.Communication.SerialMonitor import SerialMonitor",
+    "from Reduino.Actuators.DCMotor import DCMotor", "from Reduino.toolchain.pio import write_project", "from json import loads\nx = loads({H})", "import antigravity", "from Reduino.Actuators.Nope import Zip",
     "x = abs({H})", "x = max({H}, {H})", "x = int({H})", "x = str({H})", "x = h({H})", "a, b, c = 1, {H}", "mon.write(value={H})", "x = y = {H}",
 ]
 PRELUDE = ("from Reduino.Actuators import Led, RGBLed, Servo, DCMotor, Buzzer\nfrom Reduino.Communication import SerialMonitor\nfrom Reduino.Displays import LCD\n"
@@ -335,7 +341,7 @@ def amplify_case(draw):
     """a seed constant followed by k self-amplifying re-assignments (or one nested tower): every step looks harmless, the folded value explodes"""
     k = draw(st.integers(2, 40))
     b, e = draw(st.integers(2, 9)), draw(st.sampled_from([2, 3, 8, 40, 63, 64]))
-    fam = draw(st.sampled_from(["pow_hist", "sq", "fsq", "str_double", "str_aug", "str_mul", "list_double", "shift", "tower_left", "tower_right", "mixed"]))
+    fam = draw(st.sampled_from(["pow_hist", "sq", "fsq", "str_double", "str_aug", "str_mul", "list_double", "shift", "tower_left", "tower_right", "mixed", "fstr_double", "fstr_mixed", "str_conv"]))
     if fam == "pow_hist":
         lines = [f"x = {b} ** {e}"] + [f"x = x ** {draw(st.sampled_from([2, 8, 64]))}"] * min(k, 8)
     elif fam == "sq":
@@ -346,6 +352,12 @@ def amplify_case(draw):
         lines = ["x = 'ab'"] + ["x = x + x"] * k
     elif fam == "str_aug":
         lines = ["x = 'ab'"] + ["x += x"] * k
+    elif fam == "fstr_double":
+        lines = ["x = 'ab'"] + [draw(st.sampled_from(['x = f"{x}{x}"', 'x = f"{x}-{x}"', 'x = f"<{x}{x}{x}>"']))] * k
+    elif fam == "fstr_mixed":
+        lines = ["x = 'ab'"] + ['x = x + f"{x}"', 'x += f"{x}!"'] * min(k, 20)
+    elif fam == "str_conv":
+        lines = ["x = 'ab'"] + ["x = str(x) + str(x)"] * k
     elif fam == "str_mul":
         lines = ["x = 'ab'"] + [f"x = x * {draw(st.sampled_from([2, 10, 1000]))}"] * min(k, 12)
     elif fam == "list_double":
@@ -364,7 +376,9 @@ def amplify_case(draw):
         lines = [f"x = {t}"]
     else:
         lines = ["x = 'ab'", "y = 3"] + ["x = x + x", "y = y * y", "x = x + str(y)"] * min(k, 14)
-    use = draw(st.sampled_from(["sleep(x)", "mon.write(x)", "led.blink(x, 2)", "mon.write(len(x))", "led = Led(x)", "y9 = x", "lcd.line(0, x)", "if x:\n    led.on()"]))
+    use = draw(st.sampled_from(["sleep(x)", "mon.write(x)", "led.blink(x, 2)", "mon.write(len(x))", "led = Led(x)", "y9 = x", "lcd.line(0, x)", "if x:\n    led.on()",
+                                  "bz.play_tone(x, 1)", "bz.play_tone(440, x)", "mot.set_speed(x)", "srv9 = Servo(5, min_angle=x)", "bz.melody('siren', tempo=x)", "mot.ramp(x, x)", "srv.write(x)",
+                                  "rgb.fade(1, 2, 3, x, x)", "lcd.progress(0, x, x)", "bz.sweep(x, x, duration_ms=x, steps=x)", "us9 = Ultrasonic(7, 8)\nmon.write(us9.measure_distance() + x)"]))
     place = draw(st.sampled_from(["top", "loop", "func"]))
     body = lines + use.split("\n")
     if place == "loop":
